@@ -404,6 +404,16 @@ func (fx *FX) modItem(x *SX, env *SEnv, st *State) []modItem {
 				return []modItem{{heap: has, sort: ArrS(SRef, ArrS(ks, SBool)), obj: v.T}, {heap: val, sort: ArrS(SRef, ArrS(ks, vs)), obj: v.T}, {heap: ln, sort: ArrS(SRef, SInt), obj: v.T}}
 			case "cell":
 				v := fx.specVal(x.A[1], env, st, st)
+				if v.GT == nil {
+					specErrf("cell() of an untyped value")
+				}
+				if _, isPtr := v.GT.Underlying().(*types.Pointer); !isPtr {
+					if v.Loc != nil {
+						// the name already denotes the content of a cell: the cell itself is its location
+						return []modItem{{heap: v.Loc.Heap, sort: ArrS(SRef, e.SortOf(v.Loc.GT)), obj: v.Loc.Obj}}
+					}
+					specErrf("cell() of a value that is not a pointer (%s)", v.GT)
+				}
 				et := derefType(v.GT)
 				return []modItem{{heap: "Cell!" + typeName(et), sort: ArrS(SRef, e.SortOf(et)), obj: v.T}}
 			case "chanof":
